@@ -513,3 +513,63 @@ def c09(ck):
         seen.add(key)
         ck.report(key, "data race between two accesses in jig/lisp code", {"case": {"kind": "race", "report": text}})
     ck.extra["race_reports_in_repo_code"] = len(races)
+
+
+@check("C10")
+def c10(ck):
+    import os, glob, json
+    ck.rule = ("model: FutureImpl.tla (body goroutine, 1-slot channels, done/cancelled flags, cancel's check-and-mark, deref's "
+               "take-and-redeposit) checked exhaustively by TLC for the 4 body kinds (returns, throws, sleeps honouring "
+               "cancellation, ignores cancellation) with 2 derefers, a canceller and caller-context expiry: P1..P7; the "
+               "pre-repair design's counterexamples (P4/P5 window) are recorded. real code: the model's counterexample "
+               "schedule replayed deterministically through a gate at the delivery hook for each body kind, plus random "
+               "schedules (2..6 threads of deref / done? / cancelled? / cancel, short caller deadlines); every recorded "
+               "scenario validated by TraceFuture.tla; race detector run")
+    q = ck.quick
+    for bk in ("value", "error", "sleeps", "ignores"):
+        for wc in ("TRUE", "FALSE"):
+            c = cfg(constants={"DesignC": '"fixed"', "BodyKindC": '"%s"' % bk, "WithCancelC": wc, "CallerCtxEndsC": "TRUE"},
+                    invariants=["P1", "P2", "P4", "P5", "P6"], props=["P3", "P7"]).replace("CHECK_DEADLOCK FALSE", "CHECK_DEADLOCK TRUE")
+            r = ck.tlc("MCFuture", c, timeout=600, deadlock=True, want_cases=False)
+            if r.exit != 0:
+                raise InfraError("FutureImpl (fixed design) %s/%s: TLC exit %s\n%s" % (bk, wc, r.exit, tail(r.stdout_path)))
+    c = cfg(constants={"DesignC": '"orig"', "BodyKindC": '"value"', "WithCancelC": "TRUE", "CallerCtxEndsC": "FALSE"},
+            invariants=["P1", "P2", "P4", "P5", "P6"])
+    r = ck.tlc("MCFuture", c, timeout=300, want_cases=False)
+    ck.extra["pre_repair_design_on_model"] = "violates %s" % r.violated if r.violated else "exit %s" % r.exit
+    trace = os.path.join(ck.scratch, "futures.ndjson")
+    out = ck.harness(["futures", "-n", str(150 if q else 3000), "-seed", str(ck.seed), "-out", trace], timeout=3000)
+    summary = out[-1]
+    for h in summary["hangs"]:
+        ck.report("hang:future-scenario", h, {"case": {"kind": "future-scenario", "what": h}})
+    rej, t = validate_trace(ck, "TraceFuture", trace)
+    rows = [json.loads(l) for l in open(trace)]
+    ck.traces_validated += summary["scenarios"] - len(summary["hangs"])
+    ck.evaluations += summary["scenarios"]
+    ck.distinct |= {"scenario-%d" % i for i, r_ in enumerate(rows) if r_["ev"] == "begin"}
+    ck.samples += [rows[:14]]
+    for line in rej[:50]:
+        idx, _, reason = line.partition(" ")
+        idx = int(idx)
+        ck.report("history:" + reason.split(":")[0], reason,
+                  {"case": {"kind": "future-trace", "event_index": idx, "events": rows[max(0, idx - 30):idx + 2]}})
+    def mut(rows_):
+        seen_deref = False
+        for r_ in rows_:
+            if r_["ev"] == "res" and r_["op"] == "deref" and r_["out"] != "ctx":
+                seen_deref = True
+            if seen_deref and r_["ev"] == "res" and r_["op"] == "done?" and r_["val"] == 1:
+                r_["val"] = 0
+                return True
+        return False
+    ck.extra["selftest_corrupted_trace_rejections"] = corrupt_selftest(ck, "TraceFuture", trace, mut)
+    racelog = os.path.join(ck.scratch, "race")
+    ck.harness(["futures", "-n", str(60 if q else 500), "-seed", str(ck.seed + 1), "-out", os.path.join(ck.scratch, "f-race.ndjson")],
+               race=True, timeout=3000, env={"GORACE": "log_path=%s halt_on_error=0 exitcode=0" % racelog})
+    races = parse_race_reports(glob.glob(racelog + "*"))
+    seen = set()
+    for key, text in races:
+        if key not in seen:
+            seen.add(key)
+            ck.report(key, "data race between two accesses in jig/lisp code", {"case": {"kind": "race", "report": text}})
+    ck.extra["race_reports_in_repo_code"] = len(races)
